@@ -70,7 +70,8 @@ def probe_portfolio(spec):
                     op0.optimize()
             except Exception as e:
                 o['warmup_error'] = repr(e)[:200]
-        op = portf.setup_optim_problem(prices, tg)
+        skw = {'skip_nodes': list(opts['skip_nodes'])} if opts.get('skip_nodes') else {}
+        op = portf.setup_optim_problem(prices, tg, **skw)
     except Exception as e:
         return {'status': 'setup_error', 'error': repr(e)[:300]}
     o['status'] = 'ok'
@@ -148,7 +149,7 @@ def probe_portfolio(spec):
         try:
             portf2 = mk_portfolio(spec)
             tg2 = mk_grid(spec['grid'])
-            ops = portf2.setup_split_optim_problem(mk_prices(spec), tg2, interval_size=opts['split'])
+            ops = portf2.setup_split_optim_problem(mk_prices(spec), tg2, interval_size=opts['split'], **skw)
         except Exception as e:
             o['split'] = {'setup_error': repr(e)[:300]}
             return o
@@ -965,6 +966,18 @@ def _special_objects():
         return LinkedAsset(name='li', nodes=[Node('N')], portfolio=Portfolio([a1, a2]), asset1_variable=(a1, 'disp', Node('N')),
                            asset2_variable=(a2, 'disp', Node('N')), asset2_time_already_running='time_already_running')
     out['LinkedAsset'] = linked
+    def dst_portfolio(which):
+        def make():
+            pf = Portfolio([SimpleContract(name='a1', nodes=Node('N'), min_cap=-3, max_cap=3, price='p0'), Storage(name='a2', nodes=Node('N'), size=2, cap_in=1, cap_out=1)])
+            second = pd.Timestamp('2021-10-31 02:00:00+01:00').tz_convert('CET')      # the second pass of the repeated hour
+            if which == 'start':
+                pf.set_timegrid(Timegrid(second, pd.Timestamp('2021-10-31 12:00', tz='CET'), freq='h', timezone='CET'))
+            else:
+                pf.set_timegrid(Timegrid(pd.Timestamp('2021-10-30 20:00', tz='CET'), second, freq='h', timezone='CET'))
+            return pf
+        return make
+    out['Portfolio_grid_starts_in_repeated_hour'] = dst_portfolio('start')
+    out['Portfolio_grid_ends_in_repeated_hour'] = dst_portfolio('end')
     return out
 
 
@@ -1025,7 +1038,7 @@ def probe_json(spec):
                 ph['loaded'] = True
                 s2 = to_json(obj2)
                 ph['resave_equal'] = bool(_json.loads(s1) == _json.loads(s2))
-                if label == 'Portfolio':
+                if label.startswith('Portfolio'):
                     t1, t2 = obj.timegrid, getattr(obj2, 'timegrid', None)
                     ph['grid_equal'] = bool(t2 is not None and len(t1.timepoints) == len(t2.timepoints) and all(x == y for x, y in zip(t1.timepoints, t2.timepoints))
                                             and str(t1.tz) == str(t2.tz) and t1.main_time_unit == t2.main_time_unit and list(t1.dt) == list(t2.dt))
